@@ -79,7 +79,7 @@ def mk_events(K, xml, first, second, rot):
                     return 'skip'
             if not G.complete(ks):
                 return 'skip'
-            doc, elems = G.build(ks, rot)
+            doc, elems = G.build(ks, rot, xml)
             return check(doc, elems, pos, wrong)
         return h
     E = G.END
